@@ -43,6 +43,16 @@ def mk_msg(kind, c, uid):
     raise ValueError(kind)
 
 
+def _row_class(raw):
+    """What of a journal row can influence a later step: every field except times / checksum / length,
+    ids reduced to their class (the trailing counter of the harness' ClOrdIDs is dropped)."""
+    f, _ = refs.try_parse(raw)
+    if not f:
+        return ("?",)
+    return tuple((t, (v.decode("latin-1").rstrip("0123456789") if t == "11" else v.decode("latin-1")))
+                 for t, v in f if t not in ("9", "10", "52", "122"))
+
+
 class Sim:
     def __init__(self, root):
         _, role, start_out, S, T = root
@@ -92,7 +102,7 @@ class Sim:
 
     def key(self):
         c = self.w.c
-        rows = tuple((d, seq, refs.fdict(refs.try_parse(m)[0] or []).get("35")) for (_, d, seq, m) in journal_rows(self.w.j))
+        rows = tuple((d, seq, _row_class(m) if d == 1 else None) for (_, d, seq, m) in journal_rows(self.w.j))
         return (self.root, conn_key(c), rows, self.ref_next, self.peer_seq, self.connected, tuple(self.resend_ranges[-1:]),
                 committed_counters(self.path, self.w.T, self.w.S))
 
